@@ -53,7 +53,7 @@ pub fn run(ctx: &Ctx, rep: &mut Report) {
             make_token(&mut u, TokKind::Probe, &admin, &mut rng),
         ];
         let spenders: Vec<Address> = (0..3).map(|_| u.principal()).collect();
-        let receivers: Vec<Address> = (0..2).map(|_| u.principal()).chain(std::iter::once(spenders[0].clone())).collect();
+        let receivers: Vec<Address> = (0..2).map(|_| u.principal()).chain(std::iter::once(spenders[0].clone())).chain(std::iter::once(gs.clone())).collect();
         // model balances
         let mut bal: BTreeMap<(usize, Address), i128> = BTreeMap::new();
         for (ti, t) in toks.iter().enumerate() {
@@ -198,7 +198,10 @@ pub fn run(ctx: &Ctx, rep: &mut Report) {
                     alive = false;
                     break;
                 }
-                *sums.entry((ti, kind)).or_insert(0) += amount;
+                // a pay-out whose receiver is the service itself leaves and re-enters: net zero
+                if inbound || receiver != gs {
+                    *sums.entry((ti, kind)).or_insert(0) += amount;
+                }
                 // model
                 let (from, to) = if inbound { (spender.clone(), gs.clone()) } else { (gs.clone(), receiver.clone()) };
                 *bal.entry((ti, from)).or_insert(0) -= amount;
